@@ -10,7 +10,7 @@ def build(tree, case, oids, name="T"):
     shape = case.get("shape", 6)
     act = tuple(case["act"]) if case.get("hasact") else None
     if case.get("emb") == "tensor1":
-        t = proj.build_tensor(tree, ["K"], shape=[shape], name=name)
+        t = proj.build_tensor(tree, ["K"], shape=[shape], name=name, default=case.get("dflt", 0))
         if case.get("fmt") == "U":
             t.setFormat("K", "U")
         f = t.getRoot()
@@ -19,7 +19,7 @@ def build(tree, case, oids, name="T"):
         return f, (lambda: proj.proj_tensor(t, oids))
     coords = [c for c, _ in tree["e"]]
     pls = [p["v"] for _, p in tree["e"]]
-    f = Fiber(coords, pls, shape=shape, active_range=act)
+    f = Fiber(coords, pls, shape=shape, active_range=act, default=case.get("dflt", 0))
     if case.get("fmt") == "U":
         f.getRankAttrs().setFormat("U")
     return f, (lambda: {"rank0": 0, "root": proj.proj_fiber(f, None, oids), "ranks": []})
@@ -33,7 +33,7 @@ def execute(case):
     oids = proj.Oids()
     kind, mode = case["kind"], case.get("mode", "")
     out = {k: v for k, v in case.items() if k not in ("f", "g")}
-    out.update({"dflt": 0, "exc": "ok", "ys": [], "ys2": [], "mat": {"k": "F", "e": []}})
+    out.update({"dflt": case.get("dflt", 0), "exc": "ok", "ys": [], "ys2": [], "mat": {"k": "F", "e": []}})
     for k, d in (("lo", 0), ("hi", 0), ("haslo", 1), ("hashi", 1), ("step", 1), ("sp", -1), ("fmt", "C"), ("shape", 6), ("hasact", 0), ("act", [0, 0]),
                  ("s", 1), ("o", 0), ("hasiv", 0), ("iv", [0, 0]), ("pred", ""), ("mode", "")):
         out.setdefault(k, d)
